@@ -30,11 +30,18 @@ def maxV (f : Frame) : Nat := f.comps.foldl (fun m c => if c.V > m then c.V else
 def mcuCols (f : Frame) : Nat := divCeil f.w (maxH f * 8)
 def mcuRows (f : Frame) : Nat := divCeil f.h (maxV f * 8)
 
-/-- parseSOF: `comp.width = DivCeil(d.width*comp.H, maxH*8)` (in blocks) -/
-def compWidth (f : Frame) (c : Comp) : Nat := divCeil (f.w * c.H) (maxH f * 8)
-def compHeight (f : Frame) (c : Comp) : Nat := divCeil (f.h * c.V) (maxV f * 8)
-/-- `comp.data = make([]byte, comp.width*comp.height*64)` -/
+/-- parseSOF (since fix 2d44354): `comp.width = mcuCols * comp.H`, `comp.height = mcuRows * comp.V` (in blocks);
+    `comp.data = make([]byte, comp.width*comp.height*64)` -/
+def compWidth (f : Frame) (c : Comp) : Nat := mcuCols f * c.H
+def compHeight (f : Frame) (c : Comp) : Nat := mcuRows f * c.V
 def dataLen (f : Frame) (c : Comp) : Nat := compWidth f c * compHeight f c * 64
+
+/-- parseSOF BEFORE fix 2d44354 (kept as the regression anchor of finding c15-baseline-dec-block-alias):
+    `comp.width = DivCeil(d.width*comp.H, maxH*8)` (in blocks) -/
+def compWidthOld (f : Frame) (c : Comp) : Nat := divCeil (f.w * c.H) (maxH f * 8)
+def compHeightOld (f : Frame) (c : Comp) : Nat := divCeil (f.h * c.V) (maxV f * 8)
+/-- `comp.data = make([]byte, comp.width*comp.height*64)` -/
+def dataLenOld (f : Frame) (c : Comp) : Nat := compWidthOld f c * compHeightOld f c * 64
 
 /-- decodeScan: the (blockX, blockY) arguments of decodeBlock for one component, in decode order -/
 def walk (f : Frame) (c : Comp) : List (Nat × Nat) :=
@@ -51,16 +58,20 @@ def writeOffset (cw len : Nat) (b : Nat × Nat) : Option Nat :=
   let off := blockOffset cw b.1 b.2
   if off + 63 ≥ len then none else some off
 
-/-- convertToPixels: address of the sample shown at pixel (x,y) for component c.
-    The code scales by `d.components[0].H/V` (its "maxH"/"maxV"); for one component there is no scaling. -/
-def readAddr (f : Frame) (cw ch : Nat) (c : Comp) (x y : Nat) : Option Nat :=
-  let h0 := match f.comps with | c0 :: _ :: _ => c0.H | _ => c.H
-  let v0 := match f.comps with | c0 :: _ :: _ => c0.V | _ => c.V
+/-- convertToPixels: address of the sample shownOld at pixel (x,y) for component c, the scaling divisors
+    (`maxH`, `maxV` of the code) being parameters -/
+def readAddrWith (h0 v0 cw ch : Nat) (c : Comp) (x y : Nat) : Option Nat :=
   let sx := x * c.H / h0
   let sy := y * c.V / v0
   let bx := sx / 8
   let by' := sy / 8
   if bx < cw ∧ by' < ch then some (blockOffset cw bx by' + (sy % 8) * 8 + sx % 8) else none
+
+/-- convertToPixels before fix 2d44354 scaled by `d.components[0].H/V`; for one component there is no scaling -/
+def readAddrOld (f : Frame) (cw ch : Nat) (c : Comp) (x y : Nat) : Option Nat :=
+  let h0 := match f.comps with | c0 :: _ :: _ => c0.H | _ => c.H
+  let v0 := match f.comps with | c0 :: _ :: _ => c0.V | _ => c.V
+  readAddrWith h0 v0 cw ch c x y
 
 /-- ordinal, in the component's decode order, of the last block whose 64 samples cover `addr` -/
 def lastWriter (f : Frame) (cw len : Nat) (c : Comp) (addr : Nat) : Option Nat :=
@@ -71,16 +82,24 @@ def lastWriter (f : Frame) (cw len : Nat) (c : Comp) (addr : Nat) : Option Nat :
 
 /-- what the decoder shows at pixel (x,y): ordinal of the data unit, or -1 (zero-initialised buffer) -/
 def shownWith (f : Frame) (cw ch : Nat) (c : Comp) (x y : Nat) : Int :=
-  match readAddr f cw ch c x y with
+  match readAddrOld f cw ch c x y with
   | none => -1
   | some a => match lastWriter f cw (cw * ch * 64) c a with
     | none => -1
     | some k => k
 
-/-- the code as it is -/
-def shown (f : Frame) (c : Comp) (x y : Nat) : Int := shownWith f (compWidth f c) (compHeight f c) c x y
-/-- PROPOSED REPAIR: allocate whole MCUs, `comp.width = mcuCols*comp.H`, `comp.height = mcuRows*comp.V` -/
-def shownRepaired (f : Frame) (c : Comp) (x y : Nat) : Int := shownWith f (mcuCols f * c.H) (mcuRows f * c.V) c x y
+/-- the decoder BEFORE fix 2d44354 -/
+def shownOld (f : Frame) (c : Comp) (x y : Nat) : Int := shownWith f (compWidthOld f c) (compHeightOld f c) c x y
+/-- what baseline.Decode shows at pixel (x,y) (current code): whole MCUs are allocated and convertToPixels scales
+    by `d.mcuWidth/8 = maxH`, `d.mcuHeight/8 = maxV` -/
+def shown (f : Frame) (c : Comp) (x y : Nat) : Int :=
+  let cw := mcuCols f * c.H
+  let ch := mcuRows f * c.V
+  match readAddrWith (maxH f) (maxV f) cw ch c x y with
+  | none => -1
+  | some a => match lastWriter f cw (cw * ch * 64) c a with
+    | none => -1
+    | some k => k
 
 /-- T.81 A.1.1 + A.2.3: with replication up-sampling pixel (x,y) shows component sample
     (⌊x·H/Hmax⌋, ⌊y·V/Vmax⌋); it lies in data unit (bx,by) = (sx/8, sy/8), which is decoded in MCU
@@ -117,7 +136,42 @@ def wellStuffed : List Nat → Bool
   | [b] => b != 0xFF
   | b :: b2 :: rest => if b = 0xFF then b2 == 0 && wellStuffed rest else wellStuffed (b2 :: rest)
 
-/-! ## DecodeSimple, image.Gray branch: `pixelData = append([]byte(nil), typed.Pix...)` -/
+/-! ## decodeScan since fix 4dc30ed: restart intervals -/
+
+/-- the collection loop: `cur` = scanData so far, `acc` = closed intervals.  FF00 kept, FF RSTn closes the current
+    interval, any other marker ends the scan, a trailing lone FF is kept -/
+def scanSplitAux : List Nat → List Nat → List (List Nat) → List (List Nat)
+  | [], cur, acc => acc ++ [cur]
+  | [b], cur, acc => acc ++ [cur ++ [b]]
+  | b :: b2 :: rest, cur, acc =>
+    if b = 0xFF then
+      if b2 = 0x00 then scanSplitAux rest (cur ++ [b, b2]) acc
+      else if isRST b2 then scanSplitAux rest [] (acc ++ [cur])
+      else acc ++ [cur]
+    else scanSplitAux (b2 :: rest) (cur ++ [b]) acc
+
+/-- `intervals`; without DRI (`restartInt == 0`) they are joined again (RSTn ignored, as before the fix) -/
+def scanIntervals (restartInt : Nat) (s : List Nat) : List (List Nat) :=
+  let iv := scanSplitAux s [] []
+  if restartInt = 0 then [iv.flatten] else iv
+
+/-- the MCU loop's bookkeeping: before MCU number n (0-based) `if restartInt > 0 && mcuCount > 0 &&
+    mcuCount%restartInt == 0 { interval++; reset DC predictors }`; returns (interval index used for MCU n,
+    whether the predictors were reset just before it) -/
+def mcuInterval (restartInt : Nat) : Nat → Nat × Bool
+  | 0 => (0, false)
+  | n + 1 =>
+    let prev := (mcuInterval restartInt n).1
+    if restartInt > 0 ∧ (n + 1) % restartInt = 0 then (prev + 1, true) else (prev, false)
+
+/-! ## DecodeSimple, image.Gray branch since fix 5946dc5: row-by-row copy -/
+
+/-- source index in Pix and destination index for sample (x,y): `rowStart = PixOffset(0, y) = y*Stride`,
+    `copy(pixelData[y*width:(y+1)*width], Pix[rowStart:rowStart+width])` -/
+def repackSrc (stride x y : Nat) : Nat := y * stride + x
+def repackDst (w x y : Nat) : Nat := y * w + x
+
+/-! ## DecodeSimple, image.Gray branch BEFORE fix 5946dc5: `pixelData = append([]byte(nil), typed.Pix...)` -/
 
 /-- length of `Pix` of the sub-image image/jpeg returns for a w×h grey frame: the decoder allocates whole
     8×8 blocks (`image.NewGray(8*mxx, 8*myy)`) and `SubImage` keeps `Pix[0:]` to the end of the buffer.
